@@ -1,10 +1,66 @@
 package c11
 
-// pinned regression witnesses (run first in every tier)
+import "encoding/json"
+
+// pinned regression witnesses (run first in every tier): inputs on which the pinned tree violated the property.
 type pinnedCase struct {
 	Lattice  *latCase
 	Lockstep *lockCase
 	Revoked  *revCase
 }
 
-var pinned = []pinnedCase{}
+func lockFromJSON(s string) *lockCase {
+	var c lockCase
+	if err := json.Unmarshal([]byte(s), &c); err != nil {
+		panic(err)
+	}
+	return &c
+}
+
+// findLat picks the lattice triple with the given coordinates (panics if the enumeration no longer contains it).
+func findLat(trap, key, state string, ext bool, lie, iss string, opDesc string, goH bool) *latCase {
+	for i := range lattice {
+		c := &lattice[i]
+		s := &c.Spec
+		if s.Trap != trap || c.Lie != lie || s.Op.Iss != iss || s.Ext != ext || s.Go != goH || c.StateN != state {
+			continue
+		}
+		if (s.Key == nil) != (key == "") || (s.Key != nil && *s.Key != key) {
+			continue
+		}
+		if opDesc != "" && (s.Op.Desc == nil || s.Op.Desc.String() != opDesc) {
+			continue
+		}
+		return c
+	}
+	panic("c11: pinned lattice witness not found: " + trap + " " + state + " " + lie)
+}
+
+var pinned []pinnedCase
+
+func buildPinned() {
+	const ncAcc = "accessor(c=false,e=true,get=g1,set=und)"
+	pinned = []pinnedCase{
+		// ES §10.5.5/10.5.6 via IsCompatiblePropertyDescriptor on a non-configurable accessor (RECON defect: comparison inverted)
+		{Lattice: findLat("getOwnPropertyDescriptor", "p", ncAcc, true, "honest", "R.gopd", "", false)},
+		{Lattice: findLat("getOwnPropertyDescriptor", "p", ncAcc, true, "get:g2", "R.gopd", "", false)},
+		{Lattice: findLat("defineProperty", "p", ncAcc, true, "true-without-defining", "R.define", "{get:g2}", false)},
+		{Lattice: findLat("defineProperty", "p", "absent", true, "honest", "R.define", "{get:g1}", false)},
+		// data/accessor kind switch on a non-configurable property accepted when Desc has no [[Configurable]]
+		{Lattice: findLat("defineProperty", "p", "data(c=false,w=true,e=true)", true, "true-without-defining", "R.define", "{get:g1}", false)},
+		// result descriptor rebuilt by re-reading the trap result: accessor without functions / data without value
+		{Lattice: findLat("getOwnPropertyDescriptor", "p", "accessor(c=true,e=true,get=und,set=und)", true, "honest", "R.gopd", "", false)},
+		{Lattice: findLat("getOwnPropertyDescriptor", "p", "data(c=true,w=true,e=true)", true, "drop:value", "R.gopd", "", false)},
+		// the same through the Go ProxyTrapConfig handler and an integer key
+		{Lattice: findLat("getOwnPropertyDescriptor", "3", ncAcc, true, "honest", "R.gopd", "", true)},
+		// trap-call sequence: [[PreventExtensions]] called the target twice; [[Delete]] consulted the target after a false trap result
+		{Lockstep: lockFromJSON(`{"kind":"plain","handlers":["js","js"],"ops":[{"op":"pe/R"}]}`)},
+		{Lockstep: lockFromJSON(`{"kind":"frozen","handlers":["js","js"],"ops":[{"op":"delete/R","k":0}]}`)},
+		// x instanceof <callable proxy> threw
+		{Lockstep: lockFromJSON(`{"kind":"function","handlers":["js"],"ops":[{"op":"instanceof/rhs"}]}`)},
+		// honest forwarding of a non-configurable accessor through two layers, Go handler outermost
+		{Lockstep: lockFromJSON(`{"kind":"accessors","handlers":["go","js"],"ops":[{"op":"gopd/R","k":12},{"op":"keys/O"},{"op":"set/strict","k":12,"a":[1,0]},{"op":"freeze/O"},{"op":"gopds/O"}]}`)},
+		// known finding C11-array-methods-no-has: generic Array.prototype methods never ask HasProperty (hole guard bypassed with force)
+		{Lockstep: lockFromJSON(`{"kind":"dense","handlers":["js"],"ops":[{"op":"delete/R","k":7},{"op":"am/every","f":3,"force":true}]}`)},
+	}
+}
